@@ -465,10 +465,13 @@ fn verify_images(
     let exp_acked = model_obs(acked, &plan);
     let exp_accept: Vec<QObs> = accept.iter().map(|a| model_obs(a, &plan)).collect();
     for (i, img) in uniq.iter().enumerate() {
-        if i % stepby != 0 && ctx.crash.as_ref().and_then(|c| c.point.as_ref()).is_none() {
+        // the image taken when the statement has returned (kind B) is always verified: it is the one
+        // that decides "acknowledged, therefore durable"
+        let is_boundary = img.point.kind == 'B';
+        if i % stepby != 0 && !is_boundary && ctx.crash.as_ref().and_then(|c| c.point.as_ref()).is_none() {
             continue;
         }
-        if ctx.images_verified >= ctx.max_images_per_run {
+        if ctx.images_verified >= ctx.max_images_per_run + if is_boundary { 300 } else { 0 } {
             ctx.out.count("images_skipped_budget", 1);
             continue;
         }
@@ -1107,7 +1110,9 @@ pub fn run_history(ctx: &mut Ctx, src: &mut Source, seed: u64) -> Option<History
         }
 
         // ---- crash images of this step
-        if !images.is_empty() {
+        // (when the statement's own live result already disagrees with the model the expected crash
+        // states are meaningless: that disagreement is reported by itself, the images are not judged)
+        if !images.is_empty() && !diverged {
             let mut accept: Vec<DbState> = vec![];
             // in-flight unit: the open transaction as far as submitted, and this statement
             if in_txn_before {
